@@ -162,6 +162,105 @@ def check_blind(case, acc):
     acc.tag("blind_steps_log_compared", checked)
 
 
+def check_adopt(case, acc):
+    """A *_children hook (or a per-child hook) that files ANOTHER node below the receiver while the call is running, and a
+    constructor whose post-hook raises: the protocol holds for what is there when each phase runs.
+
+    adopt: `del n.children` / `n.children = xs` detach every node that is a child of n when the detach phase runs - also one a
+    _pre_detach_children hook has just put there - each with its own _pre_detach/_post_detach pair inside the brackets.
+    ctor: `Link(target, parent=p)` whose _post_attach raises: the exception propagates, the step before it stays done, and
+    no detach hook fires (an exception from a post hook does not undo the step)."""
+    from anytree import LightNodeMixin, NodeMixin, SymlinkNode
+
+    log = []
+    base = {"NM": NodeMixin, "LM": LightNodeMixin}[case["family"]]
+
+    class Rec(base):
+        def __init__(self, name):
+            self.name = name
+            self.adopt = None
+            self.boom = False
+
+        def _pre_detach_children(self, children):
+            log.append(("pre_detach_children", self.name))
+            if self.adopt is not None and case["where"] == "pre_detach_children":
+                late, self.adopt = self.adopt, None
+                late.parent = self
+
+        def _post_detach_children(self, children):
+            log.append(("post_detach_children", self.name, tuple(c.name for c in self.children)))
+
+        def _pre_attach_children(self, children):
+            log.append(("pre_attach_children", self.name, tuple(c.name for c in self.children)))
+
+        def _post_attach_children(self, children):
+            log.append(("post_attach_children", self.name))
+
+        def _pre_detach(self, parent):
+            log.append(("pre_detach", self.name, parent.name))
+            if parent.adopt is not None and case["where"] == "pre_detach":
+                late, parent.adopt = parent.adopt, None
+                late.parent = parent
+
+        def _post_detach(self, parent):
+            log.append(("post_detach", self.name, parent.name))
+
+        def _pre_attach(self, parent):
+            log.append(("pre_attach", self.name, parent.name))
+
+        def _post_attach(self, parent):
+            log.append(("post_attach", self.name, parent.name))
+
+    n, a, b, late, x = Rec("n"), Rec("a"), Rec("b"), Rec("late"), Rec("x")
+    a.parent = n
+    b.parent = n
+    del log[:]
+    n.adopt = late
+    if case["op"] == "del":
+        del n.children
+        want_children = []
+    else:
+        n.children = [x]
+        want_children = [x]
+    got = list(n.children)
+    if len(got) != len(want_children) or any(g is not w for g, w in zip(got, want_children)):
+        raise Violation("change-outside-brackets", "%s with a %s hook that files another node below n: n.children = %s afterwards, expected %s (log %s)" % (case["op"], case["where"], [c.name for c in got], [c.name for c in want_children], log))
+    for node in (a, b, late):
+        if node.parent is not None:
+            raise Violation("change-outside-brackets", "%s with a %s hook that files another node below n: %s is still a child of %s" % (case["op"], case["where"], node.name, node.parent.name))
+        if log.count(("pre_detach", node.name, "n")) != 1 or log.count(("post_detach", node.name, "n")) != 1:
+            raise Violation("hook-log", "%s with a %s hook that files another node below n: %s got %d pre_detach and %d post_detach calls (log %s)" % (case["op"], case["where"], node.name, log.count(("pre_detach", node.name, "n")), log.count(("post_detach", node.name, "n")), log))
+    for entry in log:
+        if entry[0] in ("post_detach_children", "pre_attach_children") and entry[2]:
+            raise Violation("in-hook-state", "%s: %s of n sees the children %s" % (case["op"], entry[0], entry[2]))
+    if case["family"] == "NM":
+        class BoomLink(SymlinkNode):
+            def _pre_attach(self, parent):
+                log.append(("pre_attach", "link", parent.name))
+
+            def _post_attach(self, parent):
+                log.append(("post_attach", "link", parent.name))
+                raise KeyError("post hook of the link")
+
+            def _pre_detach(self, parent):
+                log.append(("pre_detach", "link", parent.name))
+
+            def _post_detach(self, parent):
+                log.append(("post_detach", "link", parent.name))
+
+        del log[:]
+        host = Rec("host")
+        try:
+            BoomLink(a, parent=host)
+            raise Violation("hook-exception-replaced", "the constructor of a SymlinkNode subclass swallowed the exception of its _post_attach hook")
+        except KeyError:
+            pass
+        if log != [("pre_attach", "link", "host"), ("post_attach", "link", "host")] or len(host.children) != 1:
+            raise Violation("hook-log", "SymlinkNode subclass constructed with parent= whose _post_attach raises: hooks %s, the parent has %d children (an exception from a post hook does not undo the step)" % (log, len(host.children)))
+    acc.nontrivial(True)
+    acc.tag("hooks_that_file_another_node_below_the_receiver")
+
+
 def check_case(case, acc):
     # callers may run with warnings turned into errors (python -W error, pytest filterwarnings=error): a structural call
     # that is in order emits no warning, and an exception raised by a hook is not replaced by one
@@ -171,6 +270,8 @@ def check_case(case, acc):
         warnings.simplefilter("error")
     if case.get("kind") == "blind":
         return check_blind(case, acc)
+    if case.get("kind") == "adopt":
+        return check_adopt(case, acc)
     family = mut.family_of(case["cls"])
     stats = {"nontrivial": 0, "success": 0, "aborted_parent": 0, "failed_children": 0, "posthook": 0}
 
@@ -289,6 +390,7 @@ def plan(tier, seed):
             shards = nshards if (n, length) != (2, 3) else 4
             for i in range(shards):
                 tasks.append({"engine": "blind-enum", "spec": spec, "n": n, "length": length, "index": i, "count": shards})
+    tasks.append({"engine": "adopt"})
     for i in range(nshards):
         tasks.append({"engine": "blind-hyp", "examples": examples, "seed": seed * 1000 + 500 + i})
     return tasks
@@ -313,6 +415,8 @@ def _blind_cases(spec, n, length, index, count):
 
 
 def run_task(task, acc):
+    if task["engine"] == "adopt":
+        return acc.run_enum(check_case, ({"kind": "adopt", "family": fam, "where": where, "op": op} for fam in ("NM", "LM") for where in ("pre_detach_children",) for op in ("del", "children")))
     if task["engine"] == "blind-enum":
         return acc.run_enum(check_case, mut.blind_sequences(task["spec"], task["n"], task["length"], task["index"], task["count"]))
     if task["engine"] == "blind-hyp":
